@@ -10,7 +10,7 @@ RULE = ("random images of 1-3 D x 11 numeric dtypes (floats as exact quarter-int
         "3x3/1x3/3x1/1x1/3x5 (+ even-sized against the model only) over {0,1,2} for hitmiss; 2-D binary images x cross/box for "
         "close_holes. Each output is compared with the extracted Coq model and judged by the extracted Coq specification. "
         "thorough: all binary images <=3x4 for close_holes (cross, box) and hitmiss x all 3x3 templates sampled + all 1x3/3x1 "
-        "templates. Non-trivial: image not constant")
+        "templates. Non-trivial: image not constant Added: close_holes with asymmetric elements (one-sided, left/right only, diagonal only, random), judged by an independent evaluation of DIRECTED reachability p -> p + offset; hitmiss into a caller-supplied out buffer pre-filled with ones.")
 NOT_PROVED = ["regmax/regmin are characterised by theorems for SYMMETRIC neighbourhoods (subset of the local extrema, plateau-closed, "
               "no regional extremum discarded: the greatest such set); for asymmetric neighbourhoods only the executable model is "
               "compared with the implementation",
